@@ -415,15 +415,22 @@ def serial_stage(ctx, total):
         else:
             s = draw(gen.structures(max_res=25))
         entries = [e.copy() if isinstance(e, Atom) else e for e in s.entries]
-        mode = draw(st.sampled_from(["hy36-run", "random", "dup", "desc"]))
+        mode = draw(st.sampled_from(["hy36-run", "random", "dup", "desc", "restart", "restart"]))
         base = draw(st.sampled_from([0, 99990, 100000 + 26 * 36 ** 4 - 20, 87440031 - 3000, 43770000]))
+        prev, n = None, 0
         for k, a in enumerate(pdbio.atoms_of(entries)):
+            if k == 0:
+                prev = a
             if mode == "hy36-run":
                 n = min(base + k, 87440031)
             elif mode == "dup":
                 n = base % 99999
             elif mode == "desc":
                 n = 87440031 - k
+            elif mode == "restart":
+                # numbering starts again at 1 with every MODEL record / chain (concatenated files)
+                n = 1 if (k == 0 or a.model != prev.model or a.chain != prev.chain) else n + 1
+                prev = a
             else:
                 n = draw(st.integers(-9999, 87440031))
             a.serial = refs.hy36_encode(5, n).rjust(5)
